@@ -291,6 +291,7 @@ Proof.
     destruct v; try apply R_fail_at. destruct b; [simpl; apply ext_refl|].
     apply skip_then. intros pc2. destruct (stmt_at code pc2) as [[]|]; simpl; apply ext_refl.
   - (* loop *)
+    destruct (stmt_at code (S (m_pc m))) as [s1|]; [|apply R_fail_at]. destruct s1; try apply R_fail_at.
     apply skip_then. intros pc2. destruct (stmt_at code pc2) as [[]|]; try apply R_fail_at. simpl. apply ext_refl.
   - destruct (length (m_loops m) <=? m_loop_base m); [apply R_fail_here|]. destruct (m_loops m); simpl; auto. apply ext_refl.
   - destruct (length (m_loops m) <=? m_loop_base m); [apply R_fail_here|]. destruct (m_loops m); simpl; auto. apply ext_refl.
